@@ -536,6 +536,31 @@ func hashAttribute(att *expr.AttributeExpr, h hash.Hash64, seen map[string]*uint
 		*res = hashString(t.Name(), h)
 	}
 
+	// Two attributes with different validations or default values are
+	// described by different schemas.
+	if v := att.Validation; v != nil {
+		var sb strings.Builder
+		fmt.Fprintf(&sb, "%v|%q|%q|", v.Values, v.Format, v.Pattern)
+		for _, p := range []*float64{v.Minimum, v.Maximum, v.ExclusiveMinimum, v.ExclusiveMaximum} {
+			if p != nil {
+				fmt.Fprintf(&sb, "%v", *p)
+			}
+			sb.WriteByte('|')
+		}
+		for _, p := range []*int{v.MinLength, v.MaxLength} {
+			if p != nil {
+				fmt.Fprintf(&sb, "%d", *p)
+			}
+			sb.WriteByte('|')
+		}
+		if sb.String() != "[]|\"\"|\"\"|||||||" {
+			*res = orderedHash(*res, hashString(sb.String(), h), h)
+		}
+	}
+	if att.DefaultValue != nil {
+		*res = orderedHash(*res, hashString(fmt.Sprintf("default:%v", att.DefaultValue), h), h)
+	}
+
 	return res
 }
 
